@@ -36,6 +36,10 @@ def harnesses(tier):
                 hs.append({"id": "skip/%s/%s/%s" % ("+".join("%s-%s" % kv for kv in sorted(bad.items())), ",".join(od), "by" if by else "complete"),
                            "params": {"bad": bad, "order": list(od), "by_chrom": by, "hashseed": i % 2}, "timeout": 900, "twin": i == 0})
                 i += 1
+    for bad, od in (({"chr2": "tip"}, ["chr2"]), ({"chr1": "tricycle", "chr3": "tip"}, ["chr3", "chr1"]), ({"chr2": "tricycle"}, ["chr2"])):
+        for by in (True, False):
+            hs.append({"id": "allskipped/%s/%s/%s" % ("+".join("%s-%s" % kv for kv in sorted(bad.items())), ",".join(od), "by" if by else "complete"),
+                       "params": {"bad": bad, "order": od, "by_chrom": by, "hashseed": 0}, "timeout": 600})
     return hs
 
 
@@ -80,7 +84,12 @@ def build(params):
             pos += nrefs[c]
         tags, files, log = run_once(spec, so, order, params["by_chrom"])
         good = [c for c in order if c not in bad]
-        tags2, files2, log2 = run_once(spec, so, good, params["by_chrom"])
+        if good:
+            tags2, files2, log2 = run_once(spec, so, good, params["by_chrom"])
+        else:
+            # nothing orderable was requested: no node is tagged; the merged mode still writes its (empty) complete files
+            tags2 = {n: (None, None) for n in spec.order}
+            files2 = {} if params["by_chrom"] else {"out/in-complete.gfa": [], "out/in-complete.csv": []}
         for c in bad:
             for n in spec.chroms[c]:
                 if tags[n] != (None, None):
@@ -143,9 +152,12 @@ def replay(params, model, wd):
         return {"reproduced": True, "key": "C18:crash:%s:%s" % (err.split(":")[0], "+".join(sorted(set(bad.values())))),
                 "what": "order_gfa --chromosome_order %s with non-chain %r ended with %s" % (",".join(order), bad, err)}
     good = [c for c in order if c not in bad]
-    err2, files2 = run(os.path.join(wd, "o2"), good)
-    if err2:
-        return {"reproduced": False, "error": "reference run failed: " + err2}
+    if good:
+        err2, files2 = run(os.path.join(wd, "o2"), good)
+        if err2:
+            return {"reproduced": False, "error": "reference run failed: " + err2}
+    else:
+        files2 = {} if params["by_chrom"] else {"in-complete.csv": [], "in-complete.gfa": []}
     for c in bad:
         if any(("-%s." % c) in f for f in files):
             return {"reproduced": True, "key": "C18:file-for-skipped", "what": "file written for skipped %s: %r" % (c, sorted(files))}
